@@ -11,6 +11,9 @@ Line protocol for C05 (reactions conserve atoms and mass and convert exactly X).
   setbasis <name> <mol|wt>          → as `rxn`
   copybasis <new> <orig> <mol|wt> [how=copy|setter]   → as `rxn`, for the new object (`orig.copy(basis=…)`)
   show <name>                       → as `rxn` (the stored single reaction as it is now)
+  balance <name> constants=<IDs|-> x=<rows>   → as `rxn`: `correct_atomic_balance(constants)`; `x` = the balanced
+                                      stoichiometry by mol the external solve must produce (monitored)
+  rxn … correct=1 x=<rows>          the constructor flag `correct_atomic_balance=True`
   par|ser|sys <name> <member,..>    → `ok` or `err=<class>`
   call <name> arr rows=<rows>       → `out=<rows> exact=<0|1> tag=<clean|clamp> negsum=<q>` or `err=<class> negsum=<q>`
   call <name> stream pkg=<k> ph=<chars> rows=<rows>   → likewise
@@ -298,10 +301,28 @@ def step (st : St) (line : String) : St × String :=
       match mkRxn pk basis X r ph dk payload with
       | none => (st, "bad-op")
       | some (.error e) => (st, errLine e)
-      | some (.ok (o, rx, ex)) =>
+      | some (.ok (o0, rx0, ex0)) =>
+        -- the constructor flag `correct_atomic_balance=True`: balance right after the first rescale
+        let corr : Option (Except Err (RObj × Rxn × Bool)) :=
+          match kv rest "correct", (kv rest "x").bind parseRows with
+          | some "1", some xrows =>
+            let x := xrows.flatten
+            let okBal := pk.atoms.all fun a => dot (tile o0.nRows a) x == 0
+            let okPat := x.length == rx0.nu.length && (List.zip rx0.nu x).all fun (a, b) => (a == 0) == (b == 0)
+            if !(okBal && okPat) then none else
+            some ((rx0.rebalance basis (tile o0.nRows o0.mw) x).map fun rx' =>
+              -- (the solve is floating point: never exact)
+              ({ o0 with kind := .member (.single rx') }, rx', false))
+          | some "1", none => none
+          | _, _ => some (.ok (o0, rx0, ex0))
+        match corr with
+        | none => (st, "hyp=BAD")
+        | some (.error err) => (st, errLine err)
+        | some (.ok (o, rx, ex)) =>
         let bal := balanced pk basis o.nRows rx.nu
         (st.put name { o, bal, ex },
-          showRxn o rx bal ex ++ s!" chk={if checkAtomic pk basis o.nRows rx.nu then 1 else 0}")
+          -- chk: the gate `check_atomic_balance=True` alone, i.e. on the definition as written
+          showRxn o rx bal ex ++ s!" chk={if checkAtomic pk basis o0.nRows rx0.nu then 1 else 0}")
     | _, _, _, _, _, _ => (st, "bad-op")
   | ["setbasis", name, b] =>
     match st.obj name, parseBasis b with
@@ -318,6 +339,28 @@ def step (st : St) (line : String) : St × String :=
           let o' := { o with kind := .member (.single rx'), basis := b }
           (st.put name { o := o', bal := e.bal, ex := false }, showRxn o' rx' e.bal false)
       | _ => (st, "bad-op")
+    | _, _ => (st, "bad-op")
+  | "balance" :: name :: rest =>
+    -- `rxn.correct_atomic_balance(constants=…)`; `x` = the balanced stoichiometry by mol the solver must
+    -- arrive at (hypothesis monitors: it balances every element; it has the zero pattern of the reaction)
+    match st.obj name, (kv rest "x").bind parseRows with
+    | none, _ => (st, "noref")
+    | some e, some xrows =>
+      let o := e.o
+      match o.kind, pkOf st o with
+      | .member (.single rx), some pk =>
+        let x := xrows.flatten
+        let p := o.nRows
+        let okBal := pk.atoms.all fun a => dot (tile p a) x == 0
+        let okPat := x.length == rx.nu.length && (List.zip rx.nu x).all fun (a, b) => (a == 0) == (b == 0)
+        if !(okBal && okPat) then (st, s!"hyp=BAD bal={okBal} pattern={okPat}") else
+        match rx.rebalance o.basis (tile p o.mw) x with
+        | .error err => (st, errLine err)
+        | .ok rx' =>
+          let o' := { o with kind := .member (.single rx') }
+          -- (the solve is floating point: never exact)
+          (st.put name { e with o := o', bal := true, ex := false }, showRxn o' rx' true false)
+      | _, _ => (st, "bad-op")
     | _, _ => (st, "bad-op")
   | ["show", name] =>
     match st.obj name with
